@@ -178,13 +178,17 @@ def run_tlc(module, cfg, wd, name, workers=8, timeout=900, simulate=None, depth=
     if coverage:
         cmd += ["-coverage", "1"]
     cmd += list(extra)
-    cmd.append(os.path.join(SPEC, module + ".tla"))
+    cmd.append(module if os.path.isabs(module) else os.path.join(SPEC, module + ".tla"))
     env = dict(os.environ)
     jopts = []
+    if os.path.isabs(module):
+        jopts.append(f"-DTLA-Library={SPEC}")       # a generated root module outside spec/ that EXTENDS modules of spec/
     if heap:
         jopts.append(f"-Xmx{heap}")
     if dfs:
         jopts += ["-Xss1g", "-Dtlc2.tool.queue.IStateQueue=StateDeque"]
+    elif os.environ.get("VERIF_TLC_STACK"):
+        jopts += ["-Xss" + os.environ["VERIF_TLC_STACK"]]
     if jopts:
         env["JAVA_TOOL_OPTIONS"] = " ".join(jopts)
     if env_extra:
